@@ -1388,9 +1388,15 @@ def save_restore(rep, ex: Explorer):
             how = "failure" if p.outcome[0] == "raise" else "success"
             rep.check(not bad, "SAVE.restore", site, f"exit by {how} ({'+'.join(have) or 'no solver state'})", "the in-memory object has its solver state back on every exit of save_ocf",
                       extracted=", ".join(bad) or "restored", required="attributes as before the call", function=site)
-            # what is pickled has the solver state detached
+            # what is pickled has the solver state detached (a z3 optimiser is a handle into the solver's memory and cannot be
+            # pickled; the constraint list refers to solver terms): every such attribute the object has is None at the dump
             for d in dumps:
-                pass
+                at = d.data.get("attrs")
+                if at is None:
+                    continue
+                kept = [a for a in have if not (isinstance(at.get(a), Const) and at.get(a).value is None)]
+                rep.check(not kept, "SAVE.restore", f"{site}:{d.node.lineno}", f"detached at the dump ({'+'.join(have) or 'no solver state'})", "the object is pickled without its solver state (which cannot be pickled): every such attribute is detached before the dump",
+                          extracted=f"still attached: {kept}" if kept else "detached", required="None for " + ", ".join(have) if have else "nothing to detach", function=site)
     rep.floor("save_ocf exits", n, 4)
 
 
@@ -1617,6 +1623,8 @@ def pickled_state(rep, ex: Explorer):
             continue
         rv = p.outcome[1]
         d = p.state.heap.get(rv.oid) if isinstance(rv, Ref) else None
+        if isinstance(d, HObj) and isinstance(rv, Ref) and rv.oid == held["s"].oid:
+            d = HDict(entries=dict(d.attrs))  # the object's own attribute dictionary (no copy): the same content
         if not isinstance(d, HDict):
             raise AnalysisError(f"{site}: the returned state is not a mapping the analysis can read: {rv!r}")
         for name, orig in held["attrs"].items():
